@@ -73,9 +73,39 @@ def check_offset_arm(ctx):
         raise AnalysisError("put_src(): no text splice found in the arm for action == 'offset' (anchor vanished)")
 
 
+def check_line_only_nodes(ctx, F):
+    """R11.6: a node class that carries a line number as a *field* (`TypeIgnore.lineno`; no end position, no columns) and is a syntax-order child of
+    another class is walked by `_offset()` like any other child.  The arm of `_offset()` that moves positions is entered through a test on
+    `end_col_offset`; such a node needs its own arm that stores `.lineno`, otherwise every edit that adds or removes a line above the comment
+    leaves it on the old line (the tree no longer equals a fresh parse with `type_comments=True`)."""
+    ctx.rule('R11.6', 'every grammar class with a `lineno` field but no end position that is enumerated as a child has an arm in _offset() that '
+                      'moves its line', 1)
+    line_only = [c for c, fs in F.items() if any(f == 'lineno' for f, _ in fs)]
+    if not line_only:
+        raise AnalysisError('no grammar class with a `lineno` field found (TypeIgnore expected)')
+    for fi in ctx.repo.funcs('fst_core', '_offset'):
+        stores = []
+        for n in walk_no_nested(fi.node):
+            if isinstance(n, ast.If) and any((isinstance(x, ast.Constant) and x.value == 'end_col_offset') or
+                                             (isinstance(x, ast.Attribute) and x.attr == 'end_col_offset') for x in ast.walk(n.test)):
+                # the arm(s) for nodes *without* an end position
+                for st in n.orelse:
+                    for x in ast.walk(st):
+                        if isinstance(x, (ast.Assign, ast.AugAssign)):
+                            for t in (x.targets if isinstance(x, ast.Assign) else [x.target]):
+                                if isinstance(t, ast.Attribute) and t.attr == 'lineno':
+                                    stores.append(x)
+        for c in line_only:
+            ctx.check('R11.6', bool(stores), fi.module, fi.qualname, f'{c.name}.lineno moved by _offset()',
+                      f'{c.name} carries its line number as a field and has no end position: _offset() enters its position arm only for nodes with '
+                      f'`end_col_offset`, and there is no other arm that stores `.lineno` - after an edit that adds or removes lines above it the node '
+                      f'stays on the old line (verify() with type_comments=True fails)', fi.lineno, sample={'class': c.name, 'stores': [norm(x, 60) for x in stores]})
+
+
 def run(ctx):
     check_modifying_sentinel(ctx)
     check_offset_arm(ctx)
+    check_line_only_nodes(ctx, T.fields(ctx))
     ctx.not_decided += ['head / tail rules for nodes that begin or end exactly at the edit point', 'equality with a from-scratch parse of the new source']
     F = T.fields(ctx)
     ctx.rule('R11.1', 'children are enumerated completely and in source order (table vs grammar); interleaved builders restore the '
